@@ -274,12 +274,15 @@ def header_shapes(eols=(b'\n', b'\r\n')):
                 for lead in (b'', b'\n', b' \n  '):
                     for gap in (GAPS[:3] if n >= 2 else GAPS[:1]):
                         for same_line in ((False, True) if n and forms[-1].endswith(b']]') else (False,)):
-                            for body in (bodies[:2] if n else bodies):
+                            for body in bodies:
                                 txt = lead
                                 for i, c in enumerate(forms):
                                     txt += c
                                     if i < n - 1:
                                         txt += gap
+                                if n and not body and not same_line:
+                                    # a program of comments only, its last comment not followed by a line end
+                                    yield txt.replace(b'\n', eol)
                                 if n:
                                     txt += b' ' if same_line else b'\n'
                                 txt += body
